@@ -17,6 +17,7 @@ import (
 	"bufio"
 	"encoding/hex"
 	"fmt"
+	"net/netip"
 	"os"
 	"strconv"
 	"strings"
@@ -207,4 +208,48 @@ func safe(exec func([]string) string, args []string) (res string) {
 		return "bad-op"
 	}
 	return exec(args)
+}
+
+// ---- line-protocol syntax for addresses (see lean/Nebula/Driver/NetArgs.lean)
+
+// AddrHex renders a netip.Addr as hex of its 4 or 16 bytes (a 4-in-6 address keeps its 16 bytes).
+func AddrHex(a netip.Addr) string {
+	if !a.IsValid() {
+		return "invalid"
+	}
+	if a.Is4() {
+		b := a.As4()
+		return hex.EncodeToString(b[:])
+	}
+	b := a.As16()
+	return hex.EncodeToString(b[:])
+}
+
+// ParseAddrHex is the inverse of AddrHex.
+func ParseAddrHex(s string) netip.Addr {
+	b, err := hex.DecodeString(s)
+	if err != nil {
+		panic("harness: bad address " + s)
+	}
+	switch len(b) {
+	case 4:
+		return netip.AddrFrom4([4]byte(b))
+	case 16:
+		return netip.AddrFrom16([16]byte(b))
+	}
+	panic("harness: bad address length " + s)
+}
+
+func PrefixHex(p netip.Prefix) string { return fmt.Sprintf("%s/%d", AddrHex(p.Addr()), p.Bits()) }
+
+func ParsePrefixHex(s string) netip.Prefix {
+	i := strings.IndexByte(s, '/')
+	return netip.PrefixFrom(ParseAddrHex(s[:i]), Atoi(s[i+1:]))
+}
+
+func AddrPortHex(ap netip.AddrPort) string { return fmt.Sprintf("%s:%d", AddrHex(ap.Addr()), ap.Port()) }
+
+func ParseAddrPortHex(s string) netip.AddrPort {
+	i := strings.LastIndexByte(s, ':')
+	return netip.AddrPortFrom(ParseAddrHex(s[:i]), uint16(Atoi(s[i+1:])))
 }
